@@ -334,4 +334,4 @@ def run(rep, facts, tier):
     rep.add('C12.R4', 'C12.R4:lossy-casts-counted', True, '%d narrowing casts of user integers in cell.rs / state.rs examined' % n_c, None, None, nontrivial=False)
 
 # as-built addendum
-EXPLANATION += ' As built (DESIGN 9.2): R1 also: each type is ordered by its own PartialOrd/Ord. R3 also: foreach consumes an empty collection like a non-empty one. R4 also: non-wrapping index conversion, slice clamps any integer, string words share one unit (characters).'
+EXPLANATION += ' As built (DESIGN 9.2): R1 also: each type is ordered by its own PartialOrd/Ord. R3 also: foreach consumes an empty collection like a non-empty one. R4 also: non-wrapping index conversion, slice clamps any integer, string words share one unit (characters). R1 as built: Ord::cmp may add arms of its own for same-type pairs; the constant-Equal fallback is recognised in whatever form it is written (known finding for keys of different types).'
